@@ -43,6 +43,7 @@ type Program struct {
 	ModSets  map[*types.Func]map[string]bool
 	AddrTaken map[*types.Func]bool
 	fvSet     map[string]bool
+	condEdge  func(callee *types.Func, dk, lk map[string]bool)
 	globals   map[*types.Var]*globalInitInfo
 }
 
@@ -283,6 +284,7 @@ func keys[K comparable, V any](m map[K]V) map[K]bool { panic(0) }
 func dynIs[T any](x any) bool { panic(0) }
 func unboxed[T any](x any) T { panic(0) }
 func seqEq[T any](a, b []T) bool { panic(0) }
+func typeOK[T any](x T) bool { panic(0) }
 func setEq[K comparable](a, b map[K]bool) bool { panic(0) }
 func ite[T any](c bool, a, b T) T { if c { return a }; return b }
 func allocated[T any](x T) bool { panic(0) }
